@@ -171,7 +171,9 @@ func (s *Service) parseAddress(address string) error {
 
 	switch s.protocol {
 	case "unix":
-		break
+		if s.address == "" {
+			return fmt.Errorf("Invalid address")
+		}
 	case "tcp":
 		break
 
